@@ -140,6 +140,7 @@ type Step struct {
 	Nil   bool     `json:"nil,omitempty"`   // Buf.Set: nil slice
 	Limbs []string `json:"limbs,omitempty"` // Elem.Inject: five decimal uint64
 	N     uint64   `json:"n,omitempty"`     // Mult32 multiplier / cond
+	Shape string   `json:"shape,omitempty"` // multi-scalar slices: "" spare capacity with stale entries, "exact" cap == len, "nil" nil slices when empty (else exact), "niln" one nil and one empty slice
 }
 
 type Program struct {
@@ -560,6 +561,17 @@ func exec(r *regs, st *Step) (res result) {
 		ps := psFull[:len(st.PS)]
 		for i, n := range st.PS {
 			ps[i] = r.P(n)
+		}
+		switch st.Shape {
+		case "exact", "nil", "niln":
+			ss = append(make([]*ed.Scalar, 0, len(ss)), ss...)
+			ps = append(make([]*ed.Point, 0, len(ps)), ps...)
+			if st.Shape != "exact" && len(ss) == 0 {
+				ss = nil
+			}
+			if st.Shape == "nil" && len(ps) == 0 {
+				ps = nil
+			}
 		}
 		ss0 := append([]*ed.Scalar(nil), ss...)
 		ps0 := append([]*ed.Point(nil), ps...)
